@@ -41,6 +41,10 @@ def dtype_kind(dtype, default="f"):
         return default
     if isinstance(dtype, np.dtype):
         return {"i": "i", "u": "i", "b": "b", "f": "f", "c": "c"}.get(dtype.kind, "o")
+    ident = getattr(dtype, "ident", None)
+    if ident is not None:
+        return {"builtins.bool": "b", "builtins.int": "i", "builtins.float": "f", "builtins.complex": "c", "builtins.str": "o", "builtins.object": "o",
+                "numpy.float64": "f", "numpy.float32": "f"}.get(ident, default)
     name = getattr(dtype, "tag", None) or str(dtype)
     if "int" in name:
         return "i"
@@ -639,10 +643,10 @@ def _fmod(I, a, b):
             q = abs(x) // abs(y)
             r = abs(x) - q * abs(y)
             return r if x >= 0 else -r
-        ay = z3.If(z(y) >= 0, z(y), -z(y))
-        ax = z3.If(z(x) >= 0, z(x), -z(x))
-        r = ax - ay * z3.ToReal(z3.ToInt(ax / ay))
-        return z3.If(z(x) >= 0, r, -r)
+        # x - y * trunc(x / y) with an explicit integer quotient (truncation toward zero): result has the sign of x
+        quo = z(x) / z(y)
+        q = z3.If(quo >= 0, z3.ToInt(quo), -z3.ToInt(-quo))
+        return z(x) - z(y) * z3.ToReal(q)
     if isinstance(a, NDArr) or isinstance(b, NDArr):
         return NDArr(elementwise(one, as_arr(a), as_arr(b)), "f")
     return one(a, b)
